@@ -120,6 +120,31 @@ def discharge(crate, sub, bi, kind, cs):
                         if ll is not None and ll == lo and g is not None and sub.same_value(g.args[0], [e], cs.args[0], bi):
                             return "guarded by starts_with(%s) (%d byte(s), a char boundary) on the same string" % (r[3][1][1], ll)
                 return None
+            # bound is the parameter of a closure mapped over 0..=len(x) of the same slice x (generated from_syntax)
+            if frm is not None and frm[0] == "param" and sub.kind == "Closure" and sub.creation is not None and frm[1] != "_closure":
+                parent, cbb, csi, ops = sub.creation
+                cl_local = parent.blocks[cbb]["stmts"][csi]["lhs"]["l"]
+                # which captured variable is indexed?
+                ipl = mir.op_place(cs.args[0])
+                root = sub.root_local(cs.args[0])
+                upi = None
+                if root is not None and root[0] == 1:
+                    for sg in root[1]:
+                        if isinstance(sg, str) and sg.startswith("upvar#"):
+                            upi = int(sg.split("#")[1])
+                if upi is not None and upi < len(ops):
+                    for c2 in parent.calls:
+                        if c2.callee and c2.callee.name in ("filter_map", "map", "find_map", "for_each", "filter", "flat_map") and len(c2.args) == 2:
+                            pl2 = mir.op_place(c2.args[1])
+                            if pl2 is None or pl2["l"] != cl_local:
+                                continue
+                            rng = strip_role(parent.role_of_operand(c2.args[0]))
+                            lens = [x for x in role_walk(rng) if isinstance(x, tuple) and x[0] == "call" and x[1] == "len"]
+                            isrange = (rng[0] == "call" and rng[1] == "new" and "RangeInclusive" in (rng[2] or "")) or (rng[0] == "agg" and "Range" in str(rng[1]))
+                            if isrange and len(lens) == 1:
+                                lc = parent.call_at.get(lens[0][4])
+                                if lc is not None and parent.same_value(lc.args[0], parent.after(lc.bb), ops[upi], cbb):
+                                    return "bound ranges over 0..=len(x) of the same slice x (closure parameter of %s)" % c2.callee.name
             # index derived from char_indices of the same string
             if frm is not None and role_mentions_call(frm, "char_indices"):
                 ci = [x for x in role_walk(frm) if isinstance(x, tuple) and x[0] == "call" and x[1] == "char_indices"]
@@ -229,8 +254,10 @@ def l1d(ctx):
     n = 0
     bodies = []
     for b in tests.fns():
-        if b.name in ("from_syntax", "to_syntax") and (b.impl_trait or "").endswith("lang::Language"):
+        if b.name in ("from_syntax", "to_syntax") and (b.impl_trait or "").split("::")[-1] == "Language":
             bodies.append((tests, b))
+    nlang = len(bodies)
+    ctx.floor("generated from_syntax/to_syntax bodies in the test crate", nlang, 14)
     for b in lib.fns():
         if b.name in ("from_syntax", "to_syntax") and (b.impl_trait or "").endswith("lang::LanguageChildren"):
             bodies.append((lib, b))
